@@ -126,4 +126,139 @@ theorem binarySet_refines {r : Rope} (hr : r.Stored) (bo bi value nb : Int) :
   · rw [if_neg hC]; simp only [Outcome.bind]
     rw [if_neg (fun hd => hC (inWindow_argsOK hn hd.1))]; rfl
 
+/-! ### numeric meaning -/
+
+/-- clearing an `nb`-bit window at bit `ba` of `cur` and or-ing in `V` replaces the field -/
+theorem replace_field (cur V ba nb : Nat) (hcur : cur < 2 ^ 128) (hw : ba + nb ≤ 128) (hV : V < 2 ^ nb) :
+    (cur &&& (2 ^ 128 - 1 - (2 ^ nb - 1) * 2 ^ ba)) ||| (V * 2 ^ ba)
+      = 2 ^ ba * (2 ^ nb * (cur / 2 ^ (ba + nb)) + V) + cur % 2 ^ ba := by
+  have hL : cur % 2 ^ ba < 2 ^ ba := Nat.mod_lt _ (Nat.pow_pos (by omega))
+  have hfield : (2 ^ nb - 1) * 2 ^ ba < 2 ^ 128 := by
+    have h1 : (2 ^ nb - 1) * 2 ^ ba < 2 ^ nb * 2 ^ ba :=
+      Nat.mul_lt_mul_of_pos_right (by have := Nat.pow_pos (n := nb) (show 0 < 2 by omega); omega)
+        (Nat.pow_pos (by omega))
+    have h2 : 2 ^ nb * 2 ^ ba ≤ 2 ^ 128 := by
+      rw [← Nat.pow_add]; exact Nat.pow_le_pow_right (by omega) (by omega)
+    omega
+  have hsub : 2 ^ 128 - 1 - (2 ^ nb - 1) * 2 ^ ba = 2 ^ 128 - ((2 ^ nb - 1) * 2 ^ ba + 1) := by omega
+  apply Nat.eq_of_testBit_eq
+  intro i
+  rw [Nat.testBit_or, Nat.testBit_and, hsub, Nat.testBit_two_pow_sub_succ hfield,
+    Nat.testBit_mul_two_pow, Nat.testBit_two_pow_sub_one, Nat.testBit_mul_two_pow,
+    Nat.testBit_two_pow_mul_add _ hL, Nat.testBit_mod_two_pow]
+  have hhi : ∀ j, 128 ≤ j → cur.testBit j = false := fun j hj =>
+    Nat.testBit_lt_two_pow (Nat.lt_of_lt_of_le hcur (Nat.pow_le_pow_right (by omega) hj))
+  by_cases h1 : i < ba
+  · rw [if_pos h1]
+    have : ¬ ba ≤ i := by omega
+    by_cases h128 : i < 128
+    · simp [h1, this, h128]
+    · simp [h1, this, hhi i (by omega)]
+  · rw [if_neg h1]
+    have hge : ba ≤ i := by omega
+    rw [Nat.add_comm (2 ^ nb * _) V, Nat.add_comm V, Nat.testBit_two_pow_mul_add _ hV,
+      Nat.testBit_div_two_pow]
+    by_cases h2 : i - ba < nb
+    · rw [if_pos h2]; simp [hge, h2]
+    · rw [if_neg h2]
+      have hVf : V.testBit (i - ba) = false :=
+        Nat.testBit_lt_two_pow (Nat.lt_of_lt_of_le hV (Nat.pow_le_pow_right (by omega) (by omega)))
+      rw [show i - ba - nb + (ba + nb) = i by omega, hVf]
+      by_cases h128 : i < 128
+      · simp [hge, h2, h128]
+      · simp [hge, h2, hhi i (by omega)]
+
+/-- **`binary_set` writes the field**: the result denotes the old number with the `nb`-bit field
+    at bit `8*bo + bi` replaced by `value` (and has the same length). -/
+theorem beNat_setBytes (v : List UInt8) (bo bi value nb : Nat)
+    (hwin : 8 * bo + bi + nb ≤ 8 * v.length) (hbi : bi ≤ 7) (h1 : 1 ≤ nb) (h64 : nb ≤ 64)
+    (hV : value < 2 ^ nb) :
+    beNat (setBytes v bo bi value nb)
+      = beNat v - ((beNat v / 2 ^ (8 * v.length - (8 * bo + bi + nb))) % 2 ^ nb) *
+            2 ^ (8 * v.length - (8 * bo + bi + nb))
+          + value * 2 ^ (8 * v.length - (8 * bo + bi + nb)) := by
+  unfold setBytes
+  simp only
+  generalize hL : (8 * bo + bi + nb + 7) / 8 = L
+  have hL1 : bo < L := by omega
+  have hL2 : L ≤ v.length := by omega
+  have hL3 : 8 * L ≥ 8 * bo + bi + nb := by omega
+  have hL4 : 8 * L < 8 * bo + bi + nb + 8 := by omega
+  generalize hcnt : L - bo = cnt
+  have hc9 : cnt ≤ 9 := by omega
+  have hc1 : 1 ≤ cnt := by omega
+  generalize hba : cnt * 8 - bi - nb = ba
+  have hba' : ba + bi + nb = 8 * cnt := by omega
+  -- the window value
+  have hcur := beNat_lt ((v.drop bo).take cnt)
+  rw [List.length_take, List.length_drop, Nat.min_eq_left (by omega)] at hcur
+  generalize hcurdef : beNat ((v.drop bo).take cnt) = cur at *
+  have h72 : (256 : Nat) ^ cnt ≤ 2 ^ 72 := by
+    rw [pow256]; exact Nat.pow_le_pow_right (by omega) (by omega)
+  have hcur128 : cur < 2 ^ 128 := by
+    have : (2 : Nat) ^ 72 ≤ 2 ^ 128 := Nat.pow_le_pow_right (by omega) (by omega)
+    omega
+  have e128 : (340282366920938463463374607431768211456 : Nat) = 2 ^ 128 := by norm_num
+  have hpnb : 0 < 2 ^ nb := Nat.pow_pos (by omega)
+  have hbanb : (2 : Nat) ^ nb * 2 ^ ba ≤ 2 ^ 128 := by
+    rw [← Nat.pow_add]; exact Nat.pow_le_pow_right (by omega) (by omega)
+  have hf1 : (2 ^ nb - 1) * 2 ^ ba < 2 ^ 128 := by
+    have : (2 ^ nb - 1) * 2 ^ ba < 2 ^ nb * 2 ^ ba :=
+      Nat.mul_lt_mul_of_pos_right (by omega) (Nat.pow_pos (by omega))
+    omega
+  have hf2 : value * 2 ^ ba < 2 ^ 128 := by
+    have : value * 2 ^ ba < 2 ^ nb * 2 ^ ba := Nat.mul_lt_mul_of_pos_right hV (Nat.pow_pos (by omega))
+    omega
+  rw [e128, Nat.mod_eq_of_lt hf1, Nat.mod_eq_of_lt hf2,
+    replace_field cur value ba nb hcur128 (by omega) hV]
+  -- decomposition of the window value
+  generalize hH : cur / 2 ^ (ba + nb) = H
+  generalize hLo : cur % 2 ^ ba = Lo
+  have hLo_lt : Lo < 2 ^ ba := by rw [← hLo]; exact Nat.mod_lt _ (Nat.pow_pos (by omega))
+  have hq : cur / 2 ^ ba = 2 ^ nb * H + (cur / 2 ^ ba) % 2 ^ nb := by
+    rw [← hH, Nat.pow_add, ← Nat.div_div_eq_div_mul]; exact (Nat.div_add_mod _ _).symm
+  generalize hold : (cur / 2 ^ ba) % 2 ^ nb = old at hq
+  have hcurdec : cur = 2 ^ ba * (2 ^ nb * H + old) + Lo := by
+    rw [← hq, ← hLo]; exact (Nat.div_add_mod _ _).symm
+  -- the new window value fits `cnt` bytes
+  have hHlt : H < 2 ^ (bi) := by
+    rw [← hH]; apply Nat.div_lt_of_lt_mul
+    rw [← Nat.pow_add, show ba + nb + bi = 8 * cnt by omega, ← pow256]; exact hcur
+  have hnew_lt : 2 ^ ba * (2 ^ nb * H + value) + Lo < 256 ^ cnt := by
+    have h256 : (256 : Nat) ^ cnt = 2 ^ ba * (2 ^ nb * 2 ^ bi) := by
+      rw [pow256, ← Nat.pow_add, ← Nat.pow_add]; congr 1; omega
+    have ha : 2 ^ nb * H + value < 2 ^ nb * 2 ^ bi := by
+      have : 2 ^ nb * (H + 1) ≤ 2 ^ nb * 2 ^ bi := Nat.mul_le_mul_left _ hHlt
+      rw [Nat.mul_succ] at this; omega
+    have hb : 2 ^ ba * (2 ^ nb * H + value + 1) ≤ 2 ^ ba * (2 ^ nb * 2 ^ bi) := Nat.mul_le_mul_left _ ha
+    rw [Nat.mul_succ] at hb; omega
+  -- value of the result
+  have hout : beNat (v.take bo ++ beBytes cnt (2 ^ ba * (2 ^ nb * H + value) + Lo) ++ v.drop L)
+      = beNat (v.take bo) * 256 ^ (v.length - bo)
+        + (2 ^ ba * (2 ^ nb * H + value) + Lo) * 256 ^ (v.length - L) + beNat (v.drop L) := by
+    rw [List.append_assoc, beNat_append, beNat_append, beNat_beBytes_of_lt hnew_lt]
+    simp only [List.length_append, length_beBytes, List.length_drop]
+    rw [show cnt + (v.length - L) = v.length - bo by omega]; ring
+  rw [hout]
+  -- value of the argument
+  have hsplit1 := beNat_split v bo
+  have hsplit2 := beNat_split (v.drop bo) cnt
+  rw [List.length_drop, List.drop_drop, hcurdef, show bo + cnt = L by omega,
+    show v.length - bo - cnt = v.length - L by omega] at hsplit2
+  have hv : beNat v = beNat (v.take bo) * 256 ^ (v.length - bo) + cur * 256 ^ (v.length - L)
+      + beNat (v.drop L) := by rw [hsplit1, hsplit2]; ring
+  -- the old field, read from the whole number
+  have hsh : 8 * v.length - (8 * bo + bi + nb) = 8 * (v.length - bo - cnt) + ba := by omega
+  have hwa := window_arith v bo cnt ba nb (by omega) (by omega) h64
+  rw [hcurdef] at hwa
+  have e64 : (18446744073709551616 : Nat) = 2 ^ 64 := by norm_num
+  rw [e64, Nat.mod_mod_of_dvd _ (Nat.pow_dvd_pow 2 h64), hold] at hwa
+  rw [hsh, hwa, show v.length - bo - cnt = v.length - L by omega, Nat.pow_add, ← pow256, hv, hcurdec]
+  generalize beNat (v.take bo) * 256 ^ (v.length - bo) = X
+  generalize beNat (v.drop L) = S
+  generalize (256 : Nat) ^ (v.length - L) = B
+  generalize (2 : Nat) ^ ba = E
+  generalize (2 : Nat) ^ nb = Q
+  have h1 : X + (E * (Q * H + old) + Lo) * B + S = (X + (E * (Q * H) + Lo) * B + S) + old * (B * E) := by ring
+  rw [h1, Nat.add_sub_cancel]; ring
 end QM.Builtins
